@@ -161,6 +161,30 @@ Theorem C01_steady_is_fixed_point :
 Proof. exact: steady_is_fixed_point. Qed.
 Print Assumptions C01_steady_is_fixed_point.
 
+(* balanced growth: three consecutive points of an affine steady-state path that satisfy the unsolved system are one
+   step of the solved recursion (the case x0 = x1 = x2 is the theorem above); for a model not declared linear
+   System.__init__ stores C = -(A xi + B xi_lagged), which makes the first premise hold by construction *)
+Theorem C01_steady_path_is_solution :
+  forall (F : fieldType) (nb nf ne : nat) (A B : 'M[F]_(nb + nf, nf + nb)) (C : 'cV[F]_(nb + nf)) (D : 'M[F]_(nb + nf, ne))
+         (S T Q : 'M[F]_(nb + nf)) (Z : 'M[F]_(nf + nb, nb + nf)) (Zi : 'M[F]_(nb + nf, nf + nb)) (Ta u : 'M[F]_nb),
+  let p := @solve_transition (MCOps F) nb nf ne S T Q Z C D in
+  let sq := @square_from_triangular (MCOps F) nb nf ne (@detach (MCOps F) nb nf ne p Ta u) in
+  Q *m A *m Z = S -> Q *m B *m Z = T -> Z *m Zi = 1%:M ->
+  dlsubmx S = 0 -> dlsubmx T = 0 ->
+  ulsubmx S \in unitmx -> drsubmx S + drsubmx T \in unitmx -> dlsubmx Z \in unitmx ->
+  u *m u^T = 1%:M -> ts_Tg p = u *m Ta *m u^T ->
+  forall x0 x1 x2 : 'cV[F]_(nf + nb),
+  A *m x1 + B *m x0 + C = 0 -> A *m x2 + B *m x1 + C = 0 -> x2 - x1 = x1 - x0 ->
+  sq_T sq *m dsubmx x0 + sq_K sq = dsubmx x1.
+Proof. exact: steady_path_is_solution. Qed.
+Print Assumptions C01_steady_path_is_solution.
+
+Theorem C01_system_constant :
+  forall (F : fieldType) (nb nf : nat) (A B : 'M[F]_(nb + nf, nf + nb)) (x1 x0 : 'cV[F]_(nf + nb)),
+  A *m x1 + B *m x0 + @system_constant (MCOps F) (nb + nf) (nf + nb) A B x1 x0 = 0.
+Proof. exact: system_constant_spec. Qed.
+Print Assumptions C01_system_constant.
+
 (* ... and then a level simulation equals the steady state plus the deviation simulation of the same shocks,
    period by period (create_deviation_solution zeroes K; zero_false_init_xi masks the initial condition) *)
 Theorem C01_level_is_steady_plus_deviation :
@@ -172,6 +196,19 @@ Theorem C01_level_is_steady_plus_deviation :
   = [seq xbar + x | x <- @simulate_flat (MCOps F) nb nf ne true true_init T P K X J Ru d us vs].
 Proof. exact: level_is_steady_plus_deviation. Qed.
 Print Assumptions C01_level_is_steady_plus_deviation.
+
+(* the same along a growing steady-state path xb: level run = path + deviation run, period by period *)
+Theorem C01_level_is_steady_path_plus_deviation :
+  forall (F : fieldType) (nb nf ne : nat) (T : 'M[F]_nb) (P : 'M[F]_(nb, ne)) (K : 'cV[F]_nb) (X : 'M[F]_(nb, nf))
+         (J : 'M[F]_nf) (Ru : 'M[F]_(nf, ne)) (true_init : nat -> bool) (d : 'cV[F]_nb) (us vs : seq 'cV[F]_ne)
+         (xb : nat -> 'cV[F]_nb),
+  (forall t, T *m xb t + K = xb t.+1) ->
+  T *m @mrowmask (MCOps F) nb 1 true_init (xb 0%N) = T *m xb 0%N ->
+  let dev := @simulate_flat (MCOps F) nb nf ne true true_init T P K X J Ru d us vs in
+  let lev := @simulate_flat (MCOps F) nb nf ne false true_init T P K X J Ru (xb 0%N + d) us vs in
+  size lev = size dev /\ forall t, (t < size dev)%N -> nth 0 lev t = xb t.+1 + nth 0 dev t.
+Proof. exact: level_path_pointwise. Qed.
+Print Assumptions C01_level_is_steady_path_plus_deviation.
 
 (* the deviation path satisfies the homogeneous system (C = 0) in every period *)
 Theorem C01_deviation_solves_homogeneous_system :
